@@ -8,6 +8,7 @@
 #ifndef PFPREDICTION_H
 #define PFPREDICTION_H
 
+#include <BayesFilters/AtomicFlag.h>
 #include <BayesFilters/ExogenousModel.h>
 #include <BayesFilters/ParticleSet.h>
 #include <BayesFilters/StateModel.h>
@@ -51,7 +52,7 @@ protected:
 
 
 private:
-    bool skip_ = false;
+    AtomicFlag skip_;
 };
 
 #endif /* PFPREDICTION_H */
